@@ -119,13 +119,14 @@ PROPS["C07"] = dict(
          "trickled frames at the limit); after every engine call: panic hook (process-wide) and buffer_len bound. (limits) frames of "
          "limit-1/limit/limit+1 bytes against all six decoder entry points. (session) a hostile raw peer beside a healthy PUSH on a real "
          "PULL over tcp/ipc with the C01 oracle on the healthy stream. (pacing) silent / greeting-then-silent / drip-feeding peers against "
-         "HANDSHAKE_IVL=500 ms, and MAX_CONNECTIONS slot release. distinct = (layer, config, mutation list / stream).",
+         "HANDSHAKE_IVL=500 ms, and MAX_CONNECTIONS slot release; a peer dripping one byte every 3 s and a greeting-then-silent peer against a "
+         "listener whose HANDSHAKE_IVL is left at its default (gone within 40 s). distinct = (layer, config, mutation list / stream).",
     assumptions=["a panic is attributed to rzmq when its location or backtrace runs through /repo/core or xs_foundation",
                  "pacing bound: disconnected within 3*HANDSHAKE_IVL+1 s"],
     shards=lambda tier, seed: sharded("c07", _n(tier, 8, 16), _n(tier, 300, 2400))
     + [dict(bin="c07", args=["--only", "limits"], timeout=300, name="c07-limits")]
     + sharded("c07", _n(tier, 4, 8), _n(tier, 300, 1200), extra=["--only", "session"], name="c07-session")
-    + sharded("c07", 5, 120, extra=["--only", "pacing"], name="c07-pacing")
+    + sharded("c07", 7, 180, extra=["--only", "pacing"], name="c07-pacing")
     + (sharded("c07", 4, 2400, flavour="asan", extra=["--tier", "quick"], name="c07-asan")
        + [dict(bin="c07", flavour="asan", args=["--tier", "quick", "--only", "limits"], timeout=1200, name="c07-asan-limits")]
        + sharded("c07", 2, 2400, flavour="asan", extra=["--tier", "quick", "--only", "session"], name="c07-asan-session") if tier == "thorough" else []),
